@@ -202,6 +202,10 @@ def nested_programs(tier, hi):
               ("slice", ("sort", ("sort", X, TOT), TOT3), 1, 2), ("sort", ("sort", X, ((A, True),)), ((B, False), (V, True))),
               ("slice", ("sort", ("sort", X, ((A, True),)), ((B, False), (V, True))), 0, 1),
               ("slice", ("sort", ("sort", ("sort", X, ((V, True),)), ((B, True),)), ((A, False),)), 0, 1)]
+    # a later sort on an expression that is not injective in the columns it reads: the earlier sort still breaks its ties
+    SUM = (("add", A, B), True)
+    progs += [("sort", ("sort", X, TOT), (SUM,)), ("slice", ("sort", ("sort", X, TOT), (SUM,)), 0, 2), ("slice", ("sort", ("sort", X, TOT), (SUM, (V, False))), 1, 3),
+              ("slice", ("proj", ("sort", ("sort", X, TOT), (SUM,)), ("a", "v")), 0, 1), ("slice", ("sort", ("sort", X, TOT3), ((("mul", A, ("lit", 0)), True),)), 0, 2)]
     # a sorted and sliced chain with one more operation on top (each must see exactly the window of the sorted union)
     for win in ((0, 1), (1, 2), (0, 2)):
         sl = ("slice", ("sort", CH, TOT), *win)
